@@ -130,6 +130,9 @@ type stubClient struct {
 	streams []*stubStream
 	// modifyErr, when set, makes Modify fail
 	modifyErr error
+	// the Get and Flush requests the stub was handed (it answers them with an error)
+	gets    []*spb.GetRequest
+	flushes []*spb.FlushRequest
 }
 
 func (c *stubClient) Modify(ctx context.Context, opts ...grpc.CallOption) (grpc.BidiStreamingClient[spb.ModifyRequest, spb.ModifyResponse], error) {
@@ -144,10 +147,16 @@ func (c *stubClient) Modify(ctx context.Context, opts ...grpc.CallOption) (grpc.
 }
 
 func (c *stubClient) Get(ctx context.Context, in *spb.GetRequest, opts ...grpc.CallOption) (grpc.ServerStreamingClient[spb.GetResponse], error) {
+	c.mu.Lock()
+	c.gets = append(c.gets, proto.Clone(in).(*spb.GetRequest))
+	c.mu.Unlock()
 	return nil, errors.New("stub: Get not supported")
 }
 
 func (c *stubClient) Flush(ctx context.Context, in *spb.FlushRequest, opts ...grpc.CallOption) (*spb.FlushResponse, error) {
+	c.mu.Lock()
+	c.flushes = append(c.flushes, proto.Clone(in).(*spb.FlushRequest))
+	c.mu.Unlock()
 	return nil, errors.New("stub: Flush not supported")
 }
 
